@@ -6,3 +6,350 @@ Open Scope Z_scope.
 
 Lemma play_nonneg : forall s, 0 <= play s.
 Proof. induction s as [|r s IH]; [simpl; lia|]. destruct r; cbn [play]; lia. Qed.
+
+(* ---------- the link between the client's fields and the credential walk ---------- *)
+Definition prev_nochal (p : option (meth * reply)) : Prop :=
+  match p with Some (_, r) => is_challenge r = false | None => True end.
+Definition Rinv (st : cst) (k : cstate) : Prop :=
+  (a_realm st = true -> k_seen k = true) /\
+  (a_md5 st = true -> (2 <= k_chal k)%nat) /\
+  prev_nochal (k_prev k).
+
+Lemma prev_check_nochal p q : prev_nochal p -> prev_check p q = true.
+Proof. destruct p as [[m r]|]; [|reflexivity]. destruct r; simpl; intros H; try reflexivity; discriminate. Qed.
+
+Definition last_pair (l : list (req * reply)) : option (req * reply) :=
+  match rev l with p :: _ => Some p | [] => None end.
+
+Lemma last_pair_cons p l : l <> [] -> last_pair (p :: l) = last_pair l.
+Proof.
+  unfold last_pair. intros H. simpl. destruct (rev l) eqn:E.
+  - exfalso. apply H. apply (f_equal (@rev _)) in E. rewrite rev_involutive in E. exact E.
+  - reflexivity.
+Qed.
+
+Lemma meth_eqb_refl m : meth_eqb m m = true.
+Proof. destruct m; reflexivity. Qed.
+
+(* what one attempt needs of the walk state *)
+Record pre (fuel : nat) (user : bool) (m : meth) (st : cst) (a : authk) (se : bool) (k : cstate) : Prop := {
+  pre_prev : prev_check (k_prev k) (mkreq m a se) = true;
+  pre_seen : k_seen k || auth_none a = true;
+  pre_md5a : auth_md5 a = true -> (2 <= k_chal k)%nat;
+  pre_realm : a_realm st = true -> k_seen k = true;
+  pre_md5s : a_md5 st = true -> (2 <= k_chal k)%nat;
+  pre_fuel : (fuel <= 1)%nat -> (2 - fuel <= k_chal k)%nat;
+  pre_user : user = false -> a_realm st = false /\ a = ANone
+}.
+
+Definition att_post (user : bool) (m : meth) (se : bool) (s : script) (k : cstate)
+  (res : bool * cst * list req * script) : Prop :=
+  let '(ok, st', q, s') := res in
+  s' = skipn (length q) s /\ q <> [] /\
+  Forall (fun x => q_meth x = m /\ q_sess x = se) q /\
+  (user = false -> a_realm st' = false /\ Forall (fun x => auth_none (q_auth x) = true) q) /\
+  exists k', cred_run k (replies s q) = Some k' /\
+    (ok = true -> Rinv st' k' /\ a_sess st' = sess_after m ROk /\
+                  exists x, last_pair (replies s q) = Some (x, ROk)) /\
+    (ok = false -> exists x r, last_pair (replies s q) = Some (x, r) /\ is_ok r = false).
+
+Lemma cred_step_pre fuel user m st a se k r :
+  pre fuel user m st a se k ->
+  cred_step k (mkreq m a se, r) =
+    Some {| k_seen := k_seen k || is_challenge r; k_prev := Some (m, r);
+            k_chal := if is_challenge r then S (k_chal k) else k_chal k |}.
+Proof.
+  intros P. unfold cred_step. cbn [fst snd q_auth q_meth mkreq].
+  rewrite (pre_seen _ _ _ _ _ _ _ P), (pre_prev _ _ _ _ _ _ _ P).
+  destruct (auth_md5 a) eqn:E; [|reflexivity].
+  pose proof (pre_md5a _ _ _ _ _ _ _ P E) as H. apply Nat.leb_le in H. rewrite H. reflexivity.
+Qed.
+
+Lemma skipn_pop (s : script) : snd (pop s) = skipn 1 s.
+Proof. destruct s; reflexivity. Qed.
+
+Lemma skipn_S_pop n (s : script) : skipn n (snd (pop s)) = skipn (S n) s.
+Proof. destruct s; [destruct n; reflexivity|reflexivity]. Qed.
+
+Lemma skipn_S_1 {A} n (s : list A) : skipn n (skipn 1 s) = skipn (S n) s.
+Proof. destruct s; [destruct n; reflexivity|reflexivity]. Qed.
+
+Lemma attempt_spec : forall fuel user m st a se s k,
+  pre fuel user m st a se k -> att_post user m se s k (attempt fuel user m st a se s).
+Proof.
+  induction fuel as [|f IH]; intros user m st a se s k P.
+  - (* no retry left *)
+    cbn [attempt]. pose proof (cred_step_pre _ _ _ _ _ _ _ (fst (pop s)) P) as Hstep.
+    destruct (pop s) as [r s1] eqn:Ep. cbn [fst] in Hstep.
+    assert (Hs1 : s1 = skipn 1 s) by (rewrite <- skipn_pop, Ep; reflexivity).
+    assert (Hrep : replies s [mkreq m a se] = [(mkreq m a se, r)]) by (cbn [replies]; rewrite Ep; reflexivity).
+    destruct (transport_fail r) eqn:Et; unfold att_post.
+    + split; [exact Hs1|]. split; [discriminate|]. split; [constructor; [split; reflexivity|constructor]|].
+      split. { intros Hu. destruct (pre_user _ _ _ _ _ _ _ P Hu) as [H1 H2]. split; [exact H1|]. subst a. repeat constructor. }
+      rewrite Hrep. cbn [cred_run]. rewrite Hstep. eexists; split; [reflexivity|]. split; [discriminate|].
+      intros _. exists (mkreq m a se), r. split; [reflexivity|]. destruct r; try discriminate; reflexivity.
+    + split; [exact Hs1|]. split; [discriminate|]. split; [constructor; [split; reflexivity|constructor]|].
+      split. { intros Hu. destruct (pre_user _ _ _ _ _ _ _ P Hu) as [H1 H2]. split; [exact H1|]. subst a. repeat constructor. }
+      rewrite Hrep. cbn [cred_run]. rewrite Hstep. eexists; split; [reflexivity|]. split.
+      * intros Hok. destruct r; try discriminate. cbn [is_challenge orb]. split; [|split].
+        -- split; [|split]; cbn [k_seen k_chal k_prev set_sess a_realm a_md5].
+           ++ rewrite orb_false_r. exact (pre_realm _ _ _ _ _ _ _ P).
+           ++ exact (pre_md5s _ _ _ _ _ _ _ P).
+           ++ reflexivity.
+        -- reflexivity.
+        -- eexists; reflexivity.
+      * intros Hok. exists (mkreq m a se), r. split; [reflexivity|exact Hok].
+  - (* a retry is possible *)
+    cbn [attempt]. pose proof (cred_step_pre _ _ _ _ _ _ _ (fst (pop s)) P) as Hstep.
+    destruct (pop s) as [r s1] eqn:Ep. cbn [fst] in Hstep.
+    assert (Hs1 : s1 = skipn 1 s) by (rewrite <- skipn_pop, Ep; reflexivity).
+    assert (Hrep : replies s [mkreq m a se] = [(mkreq m a se, r)]) by (cbn [replies]; rewrite Ep; reflexivity).
+    assert (Hnone : user = false -> Forall (fun x => auth_none (q_auth x) = true) [mkreq m a se]).
+    { intros Hu. destruct (pre_user _ _ _ _ _ _ _ P Hu) as [_ H2]. subst a. repeat constructor. }
+    assert (Hfail : forall st', (user = false -> a_realm st' = false) -> is_ok r = false ->
+                    att_post user m se s k (false, st', [mkreq m a se], s1)).
+    { intros st' Hst' Hnok. unfold att_post.
+      split; [exact Hs1|]. split; [discriminate|]. split; [constructor; [split; reflexivity|constructor]|].
+      split. { intros Hu. split; [exact (Hst' Hu)|exact (Hnone Hu)]. }
+      rewrite Hrep. cbn [cred_run]. rewrite Hstep. eexists; split; [reflexivity|]. split; [discriminate|].
+      intros _. exists (mkreq m a se), r. split; [reflexivity|exact Hnok]. }
+    assert (Hrealm0 : user = false -> a_realm st = false) by (intros Hu; exact (proj1 (pre_user _ _ _ _ _ _ _ P Hu))).
+    destruct (transport_fail r) eqn:Et.
+    { apply Hfail; [exact Hrealm0|]. destruct r; try discriminate; reflexivity. }
+    destruct (is401 r) eqn:E401.
+    + destruct user eqn:Eu; cbn [negb].
+      2:{ apply Hfail; [intros _; cbn; exact (Hrealm0 eq_refl)|]. destruct r; try discriminate; reflexivity. }
+      set (md5 := (f =? 0)%nat).
+      set (st1 := set_sess st (sess_after m r)).
+      set (st2 := if md5 then set_md5 st1 else st1).
+      destruct (challenge st2 r md5) as [[st3 a2]|] eqn:Ec.
+      2:{ apply Hfail; [discriminate|]. destruct r; try discriminate; reflexivity. }
+      (* the retry *)
+      assert (Hchal : is_challenge r = true) by (destruct r; try discriminate; reflexivity).
+      rewrite Hchal in Hstep. rewrite orb_true_r in Hstep.
+      set (k1 := {| k_seen := true; k_prev := Some (m, r); k_chal := S (k_chal k) |}) in *.
+      assert (P1 : pre f true m st3 a2 se k1).
+      { assert (Hmd5 : md5 = true -> (1 <= k_chal k)%nat).
+        { unfold md5. intros H. apply Nat.eqb_eq in H. subst f. pose proof (pre_fuel _ _ _ _ _ _ _ P). lia. }
+        assert (Ha2 : (a2 = ABasic md5 /\ r = RBasic) \/ (a2 = ADigest md5 /\ r = RDigest)).
+        { destruct r; try discriminate; cbn in Ec; inversion Ec; auto. }
+        assert (Hst3 : a_md5 st3 = a_md5 st2).
+        { destruct r; try discriminate; cbn in Ec; inversion Ec; reflexivity. }
+        constructor; cbn [k_seen k_prev k_chal k1].
+        - destruct Ha2 as [[-> ->]|[-> ->]]; cbn; apply meth_eqb_refl.
+        - reflexivity.
+        - intros H. destruct Ha2 as [[-> _]|[-> _]]; cbn in H; specialize (Hmd5 H); lia.
+        - reflexivity.
+        - rewrite Hst3. unfold st2. destruct md5 eqn:Em.
+          + intros _. specialize (Hmd5 eq_refl). lia.
+          + unfold st1. cbn. intros H. pose proof (pre_md5s _ _ _ _ _ _ _ P H). lia.
+        - intros Hf. destruct f as [|f']; [|lia]. unfold md5 in Hmd5. specialize (Hmd5 eq_refl). lia.
+        - discriminate. }
+      specialize (IH true m st3 a2 se s1 k1 P1).
+      destruct (attempt f true m st3 a2 se s1) as [[[ok st4] qs] s2].
+      unfold att_post in IH |- *.
+      destruct IH as (I1 & I2 & I3 & I4 & k' & I5 & I6 & I7).
+      split. { rewrite I1, Hs1. cbn [length]. apply skipn_S_1. }
+      split; [discriminate|].
+      split; [constructor; [split; reflexivity|exact I3]|].
+      split; [discriminate|].
+      exists k'. cbn [replies]. rewrite Ep. cbn [cred_run]. rewrite Hstep.
+      split; [exact I5|].
+      assert (Hne : replies s1 qs <> []).
+      { destruct qs; [contradiction|]. cbn [replies]. destruct (pop s1). discriminate. }
+      rewrite (last_pair_cons _ _ Hne). split; assumption.
+    + (* not a 401: the status decides *)
+      destruct (is_ok r) eqn:Eok.
+      * unfold att_post.
+        split; [exact Hs1|]. split; [discriminate|]. split; [constructor; [split; reflexivity|constructor]|].
+        split. { intros Hu. split; [cbn; exact (Hrealm0 Hu)|exact (Hnone Hu)]. }
+        rewrite Hrep. cbn [cred_run]. rewrite Hstep. eexists; split; [reflexivity|]. split; [|discriminate].
+        intros _. destruct r; try discriminate. cbn [is_challenge orb]. split; [|split].
+        -- split; [|split]; cbn [k_seen k_chal k_prev set_sess a_realm a_md5].
+           ++ rewrite orb_false_r. exact (pre_realm _ _ _ _ _ _ _ P).
+           ++ exact (pre_md5s _ _ _ _ _ _ _ P).
+           ++ reflexivity.
+        -- reflexivity.
+        -- eexists; reflexivity.
+      * apply Hfail; [intros Hu; cbn; exact (Hrealm0 Hu)|reflexivity].
+Qed.
+
+(* ---------- requestWithResponse ---------- *)
+Lemma cur_auth_none st : a_realm st = false -> cur_auth st = ANone.
+Proof. unfold cur_auth. intros ->. reflexivity. Qed.
+
+Lemma rwr_spec user m st s k :
+  Rinv st k -> (user = false -> a_realm st = false) ->
+  att_post user m (a_sess st) s k (rwr user m st s).
+Proof.
+  intros (Hr & Hm & Hp) Hu. unfold rwr. apply attempt_spec. constructor.
+  - apply prev_check_nochal. exact Hp.
+  - destruct (a_realm st) eqn:E; [rewrite (Hr eq_refl); reflexivity|].
+    rewrite (cur_auth_none _ E). apply orb_true_r.
+  - unfold cur_auth. destruct (a_realm st); [|discriminate].
+    destruct (a_nonce st); cbn; exact Hm.
+  - exact Hr.
+  - exact Hm.
+  - lia.
+  - intros H. split; [exact (Hu H)|apply cur_auth_none; exact (Hu H)].
+Qed.
+
+(* ---------- lists ---------- *)
+Lemma replies_app q1 : forall s q2,
+  replies s (q1 ++ q2) = replies s q1 ++ replies (skipn (length q1) s) q2.
+Proof.
+  induction q1 as [|x q1 IH]; intros s q2; [reflexivity|].
+  cbn [app replies length]. destruct (pop s) as [r s'] eqn:E. cbn [app]. f_equal.
+  rewrite IH. f_equal. f_equal. rewrite <- skipn_S_pop, E. reflexivity.
+Qed.
+
+Lemma cred_run_app l1 : forall k l2,
+  cred_run k (l1 ++ l2) = match cred_run k l1 with Some k1 => cred_run k1 l2 | None => None end.
+Proof.
+  induction l1 as [|p l1 IH]; intros k l2; [reflexivity|].
+  cbn [app cred_run]. destruct (cred_step k p); [apply IH|reflexivity].
+Qed.
+
+Lemma last_pair_app l1 l2 : l2 <> [] -> last_pair (l1 ++ l2) = last_pair l2.
+Proof.
+  intros H. unfold last_pair. rewrite rev_app_distr. destruct (rev l2) eqn:E; [|reflexivity].
+  exfalso. apply H. apply (f_equal (@rev _)) in E. rewrite rev_involutive in E. exact E.
+Qed.
+
+Lemma replies_length s : forall q, length (replies q s) = length s.
+Proof. induction s as [|x s IH]; intros q; [reflexivity|]. cbn [replies]. destruct (pop q). cbn. f_equal. apply IH. Qed.
+
+Lemma replies_nonempty s q : q <> [] -> replies s q <> [].
+Proof. destruct q; [contradiction|]. cbn [replies]. destruct (pop s). discriminate. Qed.
+
+Lemma skipn_add {A} n m (l : list A) : skipn m (skipn n l) = skipn (n + m) l.
+Proof.
+  revert l. induction n as [|n IH]; intros l; [reflexivity|].
+  destruct l; [destruct m; reflexivity|]. cbn [skipn Nat.add]. apply IH.
+Qed.
+
+(* ---------- method order ---------- *)
+Definition rk := meth_rank.
+Fixpoint sortedP (ms : list meth) : Prop :=
+  match ms with
+  | [] => True
+  | m :: ms' => Forall (fun y => (rk m <= rk y)%nat) ms' /\ sortedP ms'
+  end.
+
+Lemma nondec_const m : forall l, Forall (fun x => x = m) l -> nondecreasing l = true.
+Proof.
+  induction l as [|a l IH]; intros H; [reflexivity|].
+  inversion H as [|? ? Ha Hl]; subst. destruct l as [|b l']; [reflexivity|].
+  cbn [nondecreasing]. inversion Hl; subst. rewrite Nat.leb_refl. apply IH. exact Hl.
+Qed.
+
+Lemma nondec_app m : forall l1 l2,
+  Forall (fun x => x = m) l1 -> nondecreasing l2 = true ->
+  Forall (fun y => (rk m <= rk y)%nat) l2 -> nondecreasing (l1 ++ l2) = true.
+Proof.
+  induction l1 as [|a l1 IH]; intros l2 H1 H2 H3; [exact H2|].
+  inversion H1 as [|? ? Ha Hl]; subst.
+  specialize (IH l2 Hl H2 H3).
+  destruct l1 as [|a' l1'].
+  - cbn [app]. destruct l2 as [|b t]; [reflexivity|].
+    cbn [nondecreasing]. inversion H3; subst.
+    replace (meth_rank m <=? meth_rank b)%nat with true by (symmetry; apply Nat.leb_le; assumption).
+    exact H2.
+  - inversion Hl; subst. cbn [app nondecreasing]. rewrite Nat.leb_refl. exact IH.
+Qed.
+
+Lemma count_meth_app m l1 l2 : count_meth m (l1 ++ l2) = (count_meth m l1 + count_meth m l2)%nat.
+Proof. unfold count_meth. rewrite filter_app, app_length. reflexivity. Qed.
+
+Lemma count_meth_const m' m l : Forall (fun x => x = m) l -> l <> [] ->
+  (count_meth m' [m] <= count_meth m' l)%nat.
+Proof.
+  intros H Hne. destruct l as [|a l]; [contradiction|]. inversion H; subst.
+  unfold count_meth. cbn [filter]. destruct (meth_eqb m' m); cbn [length]; lia.
+Qed.
+
+(* ---------- Open's request sequence ---------- *)
+Definition plan_post (user : bool) (ms : list meth) (s : script) (k : cstate)
+  (res : bool * cst * list req * script) : Prop :=
+  let '(ok, st', q, s') := res in
+  s' = skipn (length q) s /\
+  match ms, q with m :: _, x :: _ => q_meth x = m | [], [] => True | _, _ => False end /\
+  nondecreasing (map q_meth q) = true /\
+  (forall lo, Forall (fun y => (lo <= rk y)%nat) ms -> Forall (fun x => (lo <= rk (q_meth x))%nat) q) /\
+  (user = false -> Forall (fun x => auth_none (q_auth x) = true) q) /\
+  exists k', cred_run k (replies s q) = Some k' /\
+    (ok = true -> Rinv st' k' /\ (user = false -> a_realm st' = false) /\
+       (forall m', (count_meth m' ms <= count_meth m' (map q_meth q))%nat) /\
+       (ms <> [] -> a_sess st' = sess_after (last ms MOptions) ROk /\
+                    exists x, last_pair (replies s q) = Some (x, ROk) /\ q_meth x = last ms MOptions)) /\
+    (ok = false -> exists x r, last_pair (replies s q) = Some (x, r) /\ is_ok r = false).
+
+Lemma run_plan_spec user : forall ms st s k,
+  sortedP ms -> Rinv st k -> (user = false -> a_realm st = false) ->
+  plan_post user ms s k (run_plan user ms st s).
+Proof.
+  induction ms as [|m ms IH]; intros st s k Hs HR Hu.
+  - cbn [run_plan]. unfold plan_post. repeat split; try reflexivity; try constructor.
+    exists k. split; [reflexivity|]. split; [|discriminate].
+    intros _. split; [exact HR|]. split; [exact Hu|]. split; [intros; apply Nat.le_refl|]. intros H; contradiction.
+  - cbn [run_plan]. pose proof (rwr_spec user m st s k HR Hu) as R.
+    destruct (rwr user m st s) as [[[ok st1] q] s1]. unfold att_post in R.
+    destruct R as (R1 & R2 & R3 & R4 & k1 & R5 & R6 & R7).
+    assert (Hq : Forall (fun x => x = m) (map q_meth q)).
+    { clear -R3. induction R3 as [|x l [Hx _] _ IHl]; cbn; constructor; auto. }
+    destruct q as [|x0 q0]; [contradiction|].
+    assert (Hx0 : q_meth x0 = m) by (inversion R3 as [|? ? [H _] _]; exact H).
+    destruct ok.
+    + destruct (R6 eq_refl) as (HR1 & Hsess & xl & Hlast). clear R7.
+      destruct Hs as [Hge Hs'].
+      assert (Hu1 : user = false -> a_realm st1 = false) by (intros H; exact (proj1 (R4 H))).
+      destruct ms as [|m2 ms2].
+      { (* the last request of the plan *)
+        cbn [run_plan]. unfold plan_post. rewrite app_nil_r.
+        split; [exact R1|]. split; [exact Hx0|].
+        split; [apply (nondec_const m); exact Hq|].
+        split. { intros lo Hlo. inversion Hlo as [|? ? Hm Hrest]; subst.
+                 clear -R3 Hm. induction R3 as [|x l [Hx _] _ IHl]; constructor; [rewrite Hx; exact Hm|exact IHl]. }
+        split; [intros H; exact (proj2 (R4 H))|].
+        exists k1. split; [exact R5|]. split; [|discriminate]. intros _.
+        split; [exact HR1|]. split; [exact Hu1|]. split.
+        - intros m'. apply (count_meth_const m' m _ Hq). discriminate.
+        - intros _. cbn [last]. split; [exact Hsess|]. exists xl. split; [exact Hlast|].
+          pose proof Hlast as HL. unfold last_pair in HL.
+          destruct (rev (replies s (x0 :: q0))) as [|p t] eqn:E; [discriminate|]. inversion HL; subst p.
+          assert (Hin : In (xl, ROk) (replies s (x0 :: q0))) by (apply in_rev; rewrite E; left; reflexivity).
+          clear -Hin R3. revert s Hin. induction R3 as [|y l [Hy _] _ IHl]; intros s Hin; [contradiction|].
+          cbn [replies] in Hin. destruct (pop s). destruct Hin as [Hin|Hin]; [inversion Hin; subst; exact Hy|].
+          exact (IHl _ Hin). }
+      specialize (IH st1 s1 k1 Hs' HR1 Hu1).
+      destruct (run_plan user (m2 :: ms2) st1 s1) as [[[ok2 st2] q2] s2]. unfold plan_post in IH |- *.
+      destruct IH as (I1 & I2 & I3 & I4 & I5 & k2 & I6 & I7 & I8).
+      split. { rewrite I1, R1, app_length. apply skipn_add. }
+      split; [exact Hx0|].
+      split. { rewrite map_app. apply (nondec_app m); [exact Hq|exact I3|].
+               specialize (I4 (rk m) Hge). clear -I4. induction I4; cbn; constructor; auto. }
+      split. { intros lo Hlo. inversion Hlo as [|? ? Hm Hrest]; subst. apply Forall_app. split.
+               - clear -R3 Hm. induction R3 as [|x l [Hx _] _ IHl]; constructor; [rewrite Hx; exact Hm|exact IHl].
+               - exact (I4 lo Hrest). }
+      split. { intros H. apply Forall_app. split; [exact (proj2 (R4 H))|exact (I5 H)]. }
+      assert (Hq2 : q2 <> []) by (destruct q2; [contradiction|discriminate]).
+      exists k2. rewrite replies_app, cred_run_app, R5, <- R1. split; [exact I6|]. split.
+      * intros Hok. destruct (I7 Hok) as (J1 & J2 & J3 & J4). split; [exact J1|]. split; [exact J2|]. split.
+        -- intros m'. rewrite map_app, count_meth_app.
+           change (m :: m2 :: ms2) with ([m] ++ (m2 :: ms2)). rewrite count_meth_app.
+           pose proof (count_meth_const m' m (map q_meth (x0 :: q0)) Hq ltac:(discriminate)).
+           specialize (J3 m'). lia.
+        -- intros _. destruct (J4 ltac:(discriminate)) as (K1 & xk & K2 & K3).
+           change (last (m :: m2 :: ms2) MOptions) with (last (m2 :: ms2) MOptions).
+           split; [exact K1|]. exists xk. split; [|exact K3].
+           rewrite last_pair_app; [exact K2|]. apply replies_nonempty. exact Hq2.
+      * intros Hok. destruct (I8 Hok) as (xx & rr & K1 & K2). exists xx, rr. split; [|exact K2].
+        rewrite last_pair_app; [exact K1|]. apply replies_nonempty. exact Hq2.
+    + destruct (R7 eq_refl) as (xx & rr & K1 & K2). unfold plan_post.
+      split; [exact R1|]. split; [exact Hx0|].
+      split; [apply (nondec_const m); exact Hq|].
+      split. { intros lo Hlo. inversion Hlo as [|? ? Hm Hrest]; subst.
+               clear -R3 Hm. induction R3 as [|x l [Hx _] _ IHl]; constructor; [rewrite Hx; exact Hm|exact IHl]. }
+      split; [intros H; exact (proj2 (R4 H))|].
+      exists k1. split; [exact R5|]. split; [discriminate|]. intros _. exists xx, rr. split; assumption.
+Qed.
